@@ -36,6 +36,11 @@ def _types_extra(deadline, rng, tier):
     return witness_extra.c07(deadline, rng, tier)
 
 
+def _extern_abi(deadline, rng, tier):
+    from . import witness_extra
+    return witness_extra.c11_extern(deadline, rng, tier)
+
+
 def _order_extra(deadline, rng, tier):
     from . import witness_extra
     return witness_extra.c11(deadline, rng, tier)
@@ -133,13 +138,13 @@ SUITES = {
     'C04': [('label_scoping', _labels, 'surfacing of E400/E420 through the resolver',
              'random function bodies: <= 12 statements, 2 label names, nesting depth <= 3; gotos, conditional gotos, labels, blocks, if-blocks; each through the scoper alone (counts of E400/E420) and through the whole pipeline (E400/E420 reported exactly when expected, no stage fails on a poisoned statement)')],
     'C05': [('scoping_and_skipped_declarations', _scope, 'the tree walk of variable_references.rs (the Analyzable impls: where and in which order the scope-stack and pruning functions are called), and the surfacing of the errors through the resolver',
-             '14 fixed programs; 320 bodies of the family (goto placement x declaration before/after the goto x what stands between label and use x where the use stands); every body of <= 4 (thorough: <= 6) items over {declare a, declare b, use a, use b, conditional goto, label, open block, close block} with valid jumps (947 / 30806 bodies, empty blocks included); 600 (thorough: 6000) random function bodies: <= 24 statements, nesting depth <= 3, 8 variable names, 2 parameters, 2 constants; declarations, assignments, (empty) blocks, if/else, conditional gotos, closing gotos, labels, loops; verdict by an independent definitely-declared dataflow')],
+             '14 fixed programs; 400 bodies of the family (goto placement, incl. from a block with a local of the same name, x declaration before/after the goto x what stands between label and use x where the use stands); every body of <= 4 (thorough: <= 6) items over {declare a, declare b, use a, use b, conditional goto, label, open block, close block} with valid jumps (947 / 30806 bodies, empty blocks included); 600 (thorough: 6000) random function bodies: <= 24 statements, nesting depth <= 3, 8 variable names, 2 parameters, 2 constants; declarations, assignments, (empty) blocks, if/else, conditional gotos, closing gotos, labels, loops; verdict by an independent definitely-declared dataflow')],
     'C06': [('statement_placement', _placement, 'surfacing of E800/E801/E840 through the resolver',
              'random function bodies: <= 12 statements, nesting depth <= 3; loop, if/else with and without braces, goto, blocks; each through the analyzer alone and through the whole pipeline (the counts of E840/E800/E801 REPORTED equal the counts by construction)'),
             ('lint_l1800', _l1800, 'the path from linter to reported lints; typer in between',
-             'random placement-valid bodies (depth <= 4): exactly one L1800 per braced branch whose first statement is loop, none otherwise')],
+             'random placement-valid bodies (depth <= 4): exactly one L1800 per braced branch whose first statement is loop, none otherwise; in the RESOLVED tree of each accepted program every loop is still the last statement of a block')],
     'C07': [('operators_and_calls', _types, 'the typer (unification, Autocoerce insertion)',
-             'every binary/comparison/unary operator x 15 operand types (identical pairs; 6 random mixed pairs per operator); calls with 0..3 parameters: exact, one argument dropped, one added, one mistyped, & missing; literal operands; all 169 casts; sized-array pointers; assignments through member/element chains (about 729 programs)'),
+             'every binary/comparison/unary operator x 15 operand types (identical pairs; 6 random mixed pairs per operator); calls with 0..3 parameters: exact, one argument dropped, one added, one mistyped, & missing; literal operands; all 169 `as` casts; 12 bit casts (pointer to pointer, identical type, integer/pointer mixes, array-view pointers); sized-array pointers; assignments through member/element chains (about 729 programs)'),
             ('typing_of_members_and_addresses', _types_extra, 'typer: typing of structure literal members, of assignments through member/element chains, of address depth',
              '30 single programs, one obligation each: excess, exact and missing addresses on arguments, initial values and assigned values (11); a structure literal member of another type (2), an excess address on an argument, well-typed assignments through member/element/pointer chains (6: element of an array member, member of an array element, through a pointer member, word into an array-of-words member, member of such an element, whole array member), ill-typed ones that must be E504 (4), an array view assigned to an array element, through a pointer, and to/through members (6: must be an error - E504 where the member path is involved -, not a failed assertion)')],
     'C08': [('mutating_uses', _mut, 'the whole-program consequence; the typer',
@@ -156,6 +161,8 @@ SUITES = {
              'random dependency graphs of <= 5 constants or <= 5 structures, acyclic or with one simple cycle of length 1..5, each in 12 (thorough: all) declaration orders'),
             ('named_length_behind_pointer', _order_extra, 'typer: resolution of named lengths in declaration order',
              '2 single programs, one obligation each: a structure with a member of type &[N]i32 declared before / after the constant N'),
+            ('extern_abi_types', _extern_abi, 'fix_type_for_flags / fix_return_type_for_flags (the callers of externalize_type, which is under contract)',
+             '12 primitive types x 7 positions of an extern signature (parameter / return type of a head and of a definition, element of an array view, pointee of a pointer parameter and of a returned pointer): accepted iff the type is in the documented ABI list, else E358'),
             ('permutation_invariance', _invariance, 'scoper name resolution (use_struct/use_constant), declaration sorting',
              'modules of 2..6 declarations drawn from 20 templates (constants, structures, functions; shared names across namespaces, missing dependencies, duplicates): every one of 8 (thorough: all) permutations accepted or rejected alike; templates include declarations without a body (extern heads) and functions whose parameters and locals share their parameter names')],
     'C12': [('module_visibility', _modules, 'expand() (import fix-point), path resolution in context',
@@ -182,7 +189,7 @@ SUITES = {
             ('deep_nesting', _depth, 'recursion depth of the parser (unbounded stack is an assumption of the proof); the XML printer',
              '16 shapes of valid modules (nested expressions, blocks, ifs, literals, calls, types; long lists and chains) with 3000 levels/items, through (lex, parse, header) and through the XML dumps')],
     'C17': [('header_xml', _header, 'refs_ok (no reference crosses a zone) on the parser side; XML dump',
-             'random modules of 1..6 declarations of 9 kinds (imports included), public or private; header XML compared with the tree XML restricted to Public declarations')],
+             'random modules of 1..6 declarations of 12 kinds (imports; constants whose values name identifiers, array literals and structure literals included), public or private; header XML compared with the tree XML restricted to Public declarations')],
 }
 BUDGET = {'quick': 8, 'thorough': 120}
 
